@@ -424,7 +424,7 @@ fn main() {
     rep.set_extra("exhaustive_part", json!({"latencies_ms": lats, "outcomes": outs, "timeout_ms": 10, "consumer_pause_ms": [0, 3], "cases": n_ex, "complete": true}));
     // ---- random part
     let threads = a.extra_u64("threads", a.pick(4u64, 16));
-    let per_thread = a.extra_u64("cases", a.pick(15_000u64, 1_500_000));
+    let per_thread = a.extra_u64("cases", a.pick(15_000u64, 2_000_000));
     std::thread::scope(|s| {
         for shard in 0..threads {
             let rep = &rep;
